@@ -23,5 +23,7 @@ Check (C18_apply_unapply) : (forall p m parts route, values_are_bytes m -> p_seg
 Print Assumptions C18_apply_unapply.
 Check (C18_absolute_has_no_scheme) : (forall parts, uri_scheme (join true true parts) = None).
 Print Assumptions C18_absolute_has_no_scheme.
+Check (C18_relative_leading_parameter_has_no_scheme) : (forall m s segs parts, values_are_bytes m -> s_param s = true -> render_all m (s :: segs) = Some parts -> uri_scheme (join true false parts) = None).
+Print Assumptions C18_relative_leading_parameter_has_no_scheme.
 Check (C18_apply_unapply_witness) : (let p := {| p_text := []; p_scheme := Some [115; 119; 105; 109]; p_abs := true; p_segs := [{| s_param := false; s_start := 6; s_text := [117; 110; 105; 116] |}; {| s_param := true; s_start := 12; s_text := [105; 100] |}] |} in let m := [([105; 100], [97; 32; 98])] in apply p m = inl [115; 119; 105; 109; 58; 47; 117; 110; 105; 116; 47; 97; 37; 50; 48; 98] /\ unapply_str p [115; 119; 105; 109; 58; 47; 117; 110; 105; 116; 47; 97; 37; 50; 48; 98] = Some m).
 Print Assumptions C18_apply_unapply_witness.
